@@ -1,6 +1,6 @@
 """Shared pieces of the per-property modules."""
 from ..cluster import run_cluster, Spec
-from ..sched import draw_common, Scheduler, DEFAULT_SCHED, apply_churn
+from ..sched import draw_common, Scheduler, DEFAULT_SCHED, apply_churn, apply_guide_stale_ack
 
 REAL_CLUSTER = ['pysyncobj.syncobj.SyncObj (Raft core, apply loop, compaction)', 'pysyncobj.transport.TCPTransport',
                 'pysyncobj.tcp_connection.TcpConnection (framing, buffers, timeouts)', 'pysyncobj.tcp_server.TcpServer',
